@@ -15,11 +15,15 @@ class StlHorizon(LtlHorizon, StlAstVisitor):
         return StlAstVisitor.visit(self, node, *args, **kwargs)
 
     def visitNext(self, node, *args, **kwargs):
+        if self.step is None:
+            raise RTAMTException('Next operator is not supported in the dense-time monitors.')
         op_horizon = self.visit(node.children[0], *args, **kwargs)
         self.horizons[node] = op_horizon + self.step
         return op_horizon + self.step
 
     def visitStrongNext(self, node, *args, **kwargs):
+        if self.step is None:
+            raise RTAMTException('Strong next operator is not supported in the dense-time monitors.')
         op_horizon = self.visit(node.children[0], *args, **kwargs)
         self.horizons[node] = op_horizon + self.step
         return op_horizon + self.step
